@@ -146,31 +146,23 @@ theorem distribution_result_is_execution (ext : Ext) (r r' : Runner) (c : Circ) 
   · simp at he
 
 /-- Shape of a single result: at least the requested number of shots, each bitstring as long as the
-    circuit's register – given the law of the abstract `_run_and_measure` (`ExecLaw`) and of
-    `rng.choice` (`DrawLaw`).
-    PARTIAL: for a simulator the circuit must have at least one qubit (`hw`); on a zero-width circuit
-    `format(0, "00b") = "0"` makes every sampled tuple `(0,)` – see the negative witness below. -/
-theorem single_result_shape_partial (ext : Ext) (he : ExecLaw ext) (hd : DrawLaw ext)
+    circuit's register (for every register width, the zero-qubit circuit included) – given the law of
+    the abstract `_run_and_measure` (`ExecLaw`) and of `rng.choice` (`DrawLaw`). -/
+theorem single_result_shape (ext : Ext) (he : ExecLaw ext) (hd : DrawLaw ext)
     (r r' : Runner) (c : Circ) (n : Int) (m : List Shot)
-    (hw : r.leafOf.kind = .base ∨ 1 ≤ c.width)
     (h : step ext r (.run c n) = (r', .meas m)) : ShotsOK c n m := by
   obtain ⟨hn, hp⟩ := single_result_is_execution ext r r' c n m h
-  exact hp.shape hn he hd hw
+  exact hp.shape hn he hd
 
 /-- Shape of a batch result: one result per circuit and the i-th result has at least the i-th
-    requested number of shots, each as long as the i-th circuit's register (same laws, same exclusion
-    of zero-width circuits on simulators). -/
-theorem batch_results_shape_partial (ext : Ext) (he : ExecLaw ext) (hd : DrawLaw ext)
+    requested number of shots, each as long as the i-th circuit's register (same laws, all widths). -/
+theorem batch_results_shape (ext : Ext) (he : ExecLaw ext) (hd : DrawLaw ext)
     (r r' : Runner) (cs : List Circ) (ns : NSpec) (ms : List (List Shot))
-    (hw : r.leafOf.kind = .base ∨ ∀ c ∈ cs, 1 ≤ c.width)
     (h : step ext r (.batch cs ns) = (r', .batch ms)) :
     ms.length = cs.length ∧
     List.Forall₂ (fun p m => ShotsOK p.1 p.2 m) (cs.zip (samplesPerCircuit cs ns)) ms := by
   obtain ⟨_, hl, io⟩ := batch_results_in_order ext r r' cs ns ms h
-  refine ⟨hl, io.shape he hd ?_⟩
-  rcases hw with hw | hw
-  · exact Or.inl hw
-  · exact Or.inr (fun p hp => hw p.1 (List.of_mem_zip hp).1)
+  exact ⟨hl, io.shape he hd⟩
 
 /-! ### sentence 4: the measurement-tracking wrapper -/
 
@@ -274,9 +266,10 @@ example : step exT base0 (.batch [] (.many [])) = (base0, .batch []) := by decid
 example : (step exT sim0 (.run cMP 4)).1 = .leaf ⟨.sim false, ⟨2, 4⟩, 1⟩ := by decide
 -- SymbolicSimulator (everything native): one segment
 example : (step exT symb0 (.run cMP 4)).1 = .leaf ⟨.sim true, ⟨1, 1⟩, 1⟩ := by decide
--- NEGATIVE WITNESS (single_result_shape_partial, F8): a simulator on the zero-width circuit returns tuples
--- of length 1 although the register has length 0 (and counts no job: there is no segment)
-example : (step exT symb0 (.run cEmpty 3)) = (.leaf ⟨.sim true, ⟨0, 0⟩, 1⟩, .meas [[0], [0], [0]]) := by decide
+-- a simulator on the zero-width circuit returns empty tuples (fixed in /repo 6292974; `format(0,"00b")`
+-- itself still prints one digit) and counts no job: there is no segment
+example : (step exT symb0 (.run cEmpty 3)) = (.leaf ⟨.sim true, ⟨0, 0⟩, 1⟩, .meas [[], [], []]) := by decide
+example : formatBin 0 0 = [0] ∧ outcomeTuple 0 0 = [] := by decide
 -- idle qubit: tuples as long as the register
 example : (step exT symb0 (.run cH 2)).2 = .meas [[0,0,0], [0,0,0]] := by decide
 example : (step exT (.leaf ⟨.sim true, ⟨0, 0⟩, 5⟩) (.run cH 2)).2 = .meas [[1,0,1], [1,0,1]] := by decide
